@@ -344,7 +344,9 @@ def witness_obligations(rep, tier, prog):
             elif fn is None or not fn.endswith('ok/src/lib.rs'):
                 failed_lines.setdefault(-1, '%s: %s' % (fn, msg))
         if rc != 0 and not failed_lines:
-            raise factsmod.AnalysisError('witness crate failed to build without a located error:\n' + err)
+            # fail closed: the witness workspace (a user crate depending on the facade crates with their `macros` feature) does not build and
+            # no diagnostic points into it - the macros are not exported, a manifest is broken ...: no well-formed invocation compiles
+            failed_lines[-1] = 'the witness crate does not build: %s' % ' '.join(str(err).split())[-400:]
         # every well-formed invocation compiles
         bykind = {}
         for line, msg in sorted(failed_lines.items()):
@@ -516,6 +518,9 @@ def run(tier, replay=None):
     c02.fromstr_delegation(prog, rep, 'unic_locale_impl', 'Locale')
     validators.run_all(prog, rep, roles_wanted={'Language', 'Script', 'Region', 'Variant'})
     subtag_api.run(prog, rep)
+    # the macros reach a user only through the `macros` feature of the facade crates (manifest wiring, no build)
+    from .. import features
+    features.check(rep)
     rep.explanation = ('Translation validation on a generated witness set: each well-formed invocation must type-check and its expansion, read from the MIR of the witness crate, must carry exactly the '
                        'integer forms / extension string of the canonical value that the checker\'s own reference canonicaliser computes for the literal; each ill-formed literal must be a compile '
                        'error located at its invocation. locale! defers the extensions to a run-time parse of the canonical string it emits; that this parse succeeds and gives the same extensions is '
